@@ -273,6 +273,41 @@ fn cases(tier: &str, seed: u64) -> Vec<Case> {
             }
         }
     }
+    // ---- eth_getLogs: every topic filter of up to 4 positions over {null, a topic, a list} (more positions than
+    // some stored logs have topics: the state holds logs with 0, 1, 2, 3 and 4 topics) x range x address ----
+    {
+        let t1 = format!("0x{:064x}", 1);
+        let t2 = format!("0x{:064x}", 2);
+        let opts: Vec<Value> = vec![Value::Null, json!(t1), json!([t1, t2])];
+        let mut filters: Vec<Vec<Value>> = vec![vec![]];
+        let mut cur: Vec<Vec<Value>> = vec![vec![]];
+        for _ in 0..4 {
+            let mut next = Vec::new();
+            for c in &cur {
+                for o in &opts {
+                    let mut n = c.clone();
+                    n.push(o.clone());
+                    next.push(n);
+                }
+            }
+            filters.extend(next.iter().cloned());
+            cur = next;
+        }
+        for tf in &filters {
+            for (rn, range) in [("default range", json!({})), ("blocks 0..3", json!({"fromBlock": "0x0", "toBlock": "0x3"})), ("earliest..latest", json!({"fromBlock": "earliest", "toBlock": "latest"}))] {
+                for addr in [None, Some(s.clone())] {
+                    let mut f = range.as_object().cloned().unwrap_or_default();
+                    if !tf.is_empty() {
+                        f.insert("topics".into(), Value::Array(tf.clone()));
+                    }
+                    if let Some(a) = &addr {
+                        f.insert("address".into(), json!(a));
+                    }
+                    v.push(Case::Sim { req: Req { method: "eth_getLogs".into(), label: String::new(), params: json!([Value::Object(f)]) }, what: format!("eth_getLogs topics {} over {}{}", trunc(&Value::Array(tf.clone()).to_string().replace(&t1, "t1").replace(&t2, "t2"), 60), rn, if addr.is_some() { " at S" } else { "" }) });
+                }
+            }
+        }
+    }
     // ---- ABI grids of the custom precompiles, directly and through a contract (S.callpre) ----
     let mut pre: Vec<(u8, Vec<u8>, String)> = Vec::new();
     for len in 0..=40usize {
